@@ -1,11 +1,8 @@
 use super::{
     edge_traversal::EdgeTraversal, search_error::SearchError, search_tree_branch::SearchTreeBranch,
 };
-use crate::model::network::{edge_id::EdgeId, graph::Graph, vertex_id::VertexId};
-use std::{
-    collections::{HashMap, HashSet},
-    sync::Arc,
-};
+use crate::model::network::{edge_id::EdgeId, vertex_id::VertexId};
+use std::collections::{HashMap, HashSet};
 
 /// reconstructs a path from a minimum shortest path tree for some source and target vertex
 /// directionality travels up from target to source, toward root of the tree, in both the forward
@@ -40,16 +37,4 @@ pub fn vertex_oriented_route(
     }
     let reversed = result.into_iter().rev().collect();
     Ok(reversed)
-}
-
-/// edge-oriented backtrack method
-pub fn edge_oriented_route(
-    source_id: EdgeId,
-    target_id: EdgeId,
-    solution: &HashMap<VertexId, SearchTreeBranch>,
-    graph: Arc<Graph>,
-) -> Result<Vec<EdgeTraversal>, SearchError> {
-    let o_v = graph.src_vertex_id(&source_id)?;
-    let d_v = graph.dst_vertex_id(&target_id)?;
-    vertex_oriented_route(o_v, d_v, solution)
 }
